@@ -15,27 +15,28 @@ def parseList (s : String) : List String := if s == "-" || s == "" then [] else 
 
 def isField (m : String) : Bool := m.startsWith "f" || m.startsWith "F"
 
-/-- the declarations `wsutil::render` writes for a file spec, in file order -/
-def parseFile (s : String) : Option (ClassDecl String × Bool) :=
+/-- the declarations `wsutil::render` writes for a file spec, in file order.  Flag `n`: the file has
+    no class header — a comment and the constant `cLonely` take its place, the parent is not written;
+    everything below the header (uses list, types, fields, unknown types, methods, bodies) is as in a class file. -/
+def parseFile (s : String) : Option (ClassDecl String) :=
   match s.splitOn ":" with
   | stem :: par :: rest =>
     if stem == "" then none else
     let members := parseList (rest.headD "-")
     let uses := parseList ((rest.drop 1).headD "-")
     let flags := ((rest.drop 2).headD "").toList
-    if flags.contains 'n' then
-      some ({ name := stem, parent := none, decls := [.plain "cLonely"], uses := [], body := false, members := [] }, false)
-    else
-      let x := flags.contains 'x'
-      let u := flags.contains 'u'
-      let fields := members.filter isField
-      let procs := members.filter (fun m => !isField m)
-      let decls : List (Decl String) :=
-        (if x then [.plain s!"t{stem}Rec"] else []) ++ fields.map .plain ++
-        (if u then [.viaUses "fUnknown", .plain "fUnknownRef"] else []) ++ procs.map .plain ++
-        (if x then [.plain s!"Work{stem}"] else [])
-      some ({ name := stem, parent := if par == "-" then none else some par, decls := decls, uses := uses,
-              body := x, members := fields ++ procs }, true)
+    let n := flags.contains 'n'
+    let x := flags.contains 'x'
+    let u := flags.contains 'u'
+    let fields := members.filter isField
+    let procs := members.filter (fun m => !isField m)
+    let decls : List (Decl String) :=
+      (if n then [.plain "cLonely"] else []) ++
+      (if x then [.plain s!"t{stem}Rec"] else []) ++ fields.map .plain ++
+      (if u then [.viaUses "fUnknown", .plain "fUnknownRef"] else []) ++ procs.map .plain ++
+      (if x then [.plain s!"Work{stem}"] else [])
+    some { name := stem, parent := if par == "-" || n then none else some par, decls := decls, uses := uses,
+           body := x, members := fields ++ procs, header := !n }
   | _ => none
 
 def parseKind : String → Option Kind
@@ -74,8 +75,7 @@ def runWith (rule : Rule) (args : List String) : String :=
   | [files, reqs] =>
     match (files.splitOn ",").mapM parseFile with
     | none => "bad-case"
-    | some fl =>
-      let ds := fl.map (·.1)
+    | some ds =>
       let reqs := (reqs.splitOn ",").filterMap parseReq
       let (out, st, stuck) := reqs.foldl (fun (acc : List String × St String × Bool) rq =>
         let (out, s, stuck) := acc
@@ -88,8 +88,8 @@ def runWith (rule : Rule) (args : List String) : String :=
           | some w => (out ++ [s!"r:{rq.1}={stuckStr w}"], r.st, true)) ([], St.empty, false)
       if stuck then " ".intercalate out
       else
-        let noClass := fl.filterMap fun (d, isClass) => if isClass then none else some (up d.name)
-        let ptrs := fl.filterMap fun (d, isClass) => if isClass then some s!"ptr:{up d.name}={ptrStr noClass st d}" else none
+        let noClass := ds.filterMap fun d => if d.header then none else some (up d.name)
+        let ptrs := ds.filterMap fun d => if d.header then some s!"ptr:{up d.name}={ptrStr noClass st d}" else none
         " ".intercalate (out ++ ["locks=free"] ++ ptrs)
   | _ => "bad-case"
 
